@@ -44,6 +44,11 @@ def c13_family(tier, sd=0):
     add([("a", 2, ("u", 8)), ("b", 0, ("i", 16)), ("c", 1, ("u", 8))])          # ids not in declaration order
     add([("x", 1, ("u", 8)), ("y", 256, ("i", 16)), ("z", 65537, ("u", 8))])   # ids that change order if narrowed to 8 or 16 bits
     add([("f32",), ("u", 8), ("f64",)])
+    # strings of the reflection tree that are not ASCII (a binding's extension field): the loader must still find every
+    # later declaration where the Python tool put it
+    import dataclasses
+    s_ = single([("u", 16), ("str",), ("i", 8)])
+    fam.append(dataclasses.replace(s_, impls=[("can", s_.top, None, {"id": 7, "note": "\u00b0C \u00b5V"}, [])]))
     add([("dyn", ("struct", "In")), ("u", 8)], structs=[In8])
     # sub-byte widths and offsets
     add([("u", 3), ("i", 13), ("u", 2)])
@@ -164,7 +169,14 @@ def c13_case(args):
                 res["unconfirmed"].append(f"{ob}: LoadBinarySchema threw {e} in the interpreter only")
             return res
         except EngineLimit as e:
-            res["inconclusive"].append(f"{ob}: engine limit while loading the reflection: {e}")
+            # an out-of-bounds access while loading is a crash candidate: decided by the native run (both compilers)
+            path = write_replay("C13", dict(base, kind="dyn_compile"))
+            okr, text = run_replay(path)
+            if okr:
+                res["violations"].append({"replay": path, "ob": ob, "what": f"LoadBinarySchema fails on the reflection binary the "
+                                          f"tool wrote for {desc} (interpreter: {str(e)[:80]}) :: {text[-200:]}"})
+            else:
+                res["inconclusive"].append(f"{ob}: engine limit while loading the reflection: {e}")
             return res
         res["discharged"] += 1
         load_steps = m.steps
